@@ -145,6 +145,27 @@ def walk_under(fn_node, decide):
     lists (kind, stmt, env) for every return/raise/fall-off reached."""
     evaluated = {}
     exits = []
+    # single-assignment locals bound to a plain attribute chain are aliases: atoms are written in terms of the chain
+    counts, vals = {}, {}
+    for n in ast.walk(fn_node):
+        if isinstance(n, ast.Name) and isinstance(n.ctx, ast.Store):
+            counts[n.id] = counts.get(n.id, 0) + 1
+        if isinstance(n, ast.Assign) and len(n.targets) == 1 and isinstance(n.targets[0], ast.Name):
+            v = n.value
+            root = v
+            while isinstance(root, ast.Attribute):
+                root = root.value
+            if isinstance(v, ast.Attribute) and isinstance(root, ast.Name):
+                vals[n.targets[0].id] = (text(v), root.id)
+    params = {a.arg for a in fn_node.args.posonlyargs + fn_node.args.args + fn_node.args.kwonlyargs} if hasattr(fn_node, "args") else set()
+    alias = {k: v for k, (v, root) in vals.items() if counts.get(k) == 1 and k not in params and (counts.get(root, 0) == 0)}
+    alias_pat = _re.compile(r"(?<![\w.])(%s)(?![\w])" % "|".join(_re.escape(k) for k in alias)) if alias else None
+
+    def canon(e):
+        t, neg = canonical_atom(e)
+        if alias_pat is not None:
+            t = alias_pat.sub(lambda m: alias[m.group(1)], t)
+        return t, neg
 
     def note(e, env):
         """Record what evaluating ``e`` evaluates; returns the env extended with the calls made (key CALLS)."""
@@ -194,7 +215,7 @@ def walk_under(fn_node, decide):
         if isinstance(e, ast.Constant):
             return [(env, bool(e.value))]
         env = note(e, env)
-        t, neg = canonical_atom(e)
+        t, neg = canon(e)
         if t in env:
             v = env[t]
             return [(env, (not v) if neg else v)]
